@@ -1,3 +1,3 @@
 import Gomjml.Props.C07
-#print axioms Gomjml.Props.C07.C07_shared_writers_partial
+#print axioms Gomjml.Props.C07.C07_no_shared_writes
 #print axioms Gomjml.Props.C07.C07_isolated
